@@ -132,6 +132,23 @@ fn run_edit(init: &[(usize, usize)], ops: &[LOp]) -> (Vec<Viol>, String) {
             out.push(viol("get-first", ctx(&format!("get({}) = {:?}, model {:?}", n, p.get(n), want))));
         }
     }
+    // the edited paragraph prints to text that reads back equal (an empty paragraph prints nothing)
+    if !m.is_empty() {
+        let printed = p.to_string();
+        match lossy::Paragraph::from_str(&printed) {
+            Ok(back) if back == p => {}
+            Ok(back) => out.push(viol("lossy-paragraph-roundtrip", ctx(&format!("printed {:?} reads back as {:?}", printed, back)))),
+            Err(e) => out.push(viol("lossy-paragraph-roundtrip", ctx(&format!("printed {:?} is rejected: {}", printed, e)))),
+        }
+        // the same paragraph reached by parsing its text answers the accessors alike
+        if let Ok(parsed) = lossy::Paragraph::from_str(&printed) {
+            for n in NAMES8 {
+                if parsed.get(n) != p.get(n) {
+                    out.push(viol("get-first", ctx(&format!("after re-reading, get({}) = {:?}, before {:?}", n, parsed.get(n), p.get(n)))));
+                }
+            }
+        }
+    }
     (out, format!("{:?}", got))
 }
 
